@@ -253,6 +253,10 @@ func formatFSM(format string, a []cty.Value) (string, error) {
 				// line 77 "format_fsm.rl"
 
 				verb.ArgNum = (10 * verb.ArgNum) + (int(data[p]) - '0')
+				if verb.ArgNum > formatMaxArgNum {
+					// Saturate rather than overflowing; no argument list is this long.
+					verb.ArgNum = formatMaxArgNum
+				}
 
 			case 12:
 				// line 81 "format_fsm.rl"
